@@ -59,11 +59,13 @@ static int32_t
 _grow_bin_array(struct qb_array * a, size_t new_bin_size)
 {
 	size_t b;
+	void **new_bin;
 
-	a->bin = realloc(a->bin, sizeof(void*) * new_bin_size);
-	if (a->bin == NULL) {
+	new_bin = realloc(a->bin, sizeof(void*) * new_bin_size);
+	if (new_bin == NULL) {
 		return -ENOMEM;
 	}
+	a->bin = new_bin;
 	for (b = a->num_bins; b < new_bin_size; b++) {
 		a->bin[b] = NULL;
 	}
